@@ -201,7 +201,7 @@ pub fn case(p: Profile) -> BoxedStrategy<Case> {
                 prop::collection::vec(step(&p3), p3.steps.0..=p3.steps.1),
             )
         })
-        .prop_map(|(cfg, script, steps)| Case { cfg, script, steps, matrix: None, sweep: None })
+        .prop_map(|(cfg, script, steps)| Case { cfg, script, steps, matrix: None, sweep: None, timed: None })
         .boxed()
 }
 
@@ -303,6 +303,7 @@ pub fn matrix_case() -> BoxedStrategy<Case> {
                 steps: vec![],
                 matrix: Some(MatrixSpec { idle, held, reject_backend }),
                 sweep: None,
+            timed: None,
             }
         })
         .boxed()
@@ -318,6 +319,20 @@ pub fn sweep_case(prop: &str, thorough: bool) -> BoxedStrategy<Case> {
         .prop_map(|mut c| {
             c.sweep = Some(1);
             c
+        })
+        .boxed()
+}
+
+/// C04: recycle / create timeouts on a virtual clock (delegated to the tsim interpreter)
+pub fn timed_case(thorough: bool) -> BoxedStrategy<Case> {
+    tsim::managed_runtime_case(thorough)
+        .prop_map(|t| Case {
+            cfg: Cfg { max_size: t.max_size, lifo: false, post_create: vec![], pre_recycle: vec![], post_recycle: vec![] },
+            script: Script::default(),
+            steps: vec![],
+            matrix: None,
+            sweep: None,
+            timed: Some(t),
         })
         .boxed()
 }
